@@ -17,10 +17,10 @@ import numpy as np
 from vlib import *
 
 RULE = ('correspondence cases: type in UC/N/CD/UD/P/NB x (dyadic | general float) parameters x round_to_int on/off x seed, n draws '
-        'replayed against a parallel RandomState; Markov chains (alpha,beta in dyadics and general floats, both start states); '
+        'replayed against a parallel RandomState; Markov chains (alpha,beta in dyadics and general floats, a third of them with alpha or beta equal to 0 or 1 (int or float), both start states; every transition of declared probability 0 or 1 is checked individually); '
         'deterministic demand lists / explicit disruption lists of length 0..7 (scalar too) replayed for periods None,0..3*len+2; '
         'oracle cases: per type parameter sets (reported mean/sd/cdf), lead times L=1..Lmax (L-fold convolution), probability '
-        'vectors (short decimal / 1/k up to k=100 / normalised weights of length 20-100 / scipy pmf tables / sums perturbed by <= 5e-10) summing to one within 1e-9, or clearly not; SEQUENCES of 2-5 lead-time + mean/sd/cdf queries in one process that reuse demand_list / lo,hi / n,p / mean with other parameters changed and the same L, on fresh objects or one object mutated in place; statistical cases: n samples per parameter set. '
+        'vectors (short decimal / 1/k up to k=100 / normalised weights of length 20-100 / scipy pmf tables / sums perturbed by <= 5e-10) summing to one within 1e-9, or clearly not; SEQUENCES of 2-5 lead-time + mean/sd/cdf queries in one process that reuse demand_list / lo,hi / n,p / mean with other parameters changed and the same L, on fresh objects or one object mutated in place; statistical cases: n samples per parameter set; Markov chains with alpha,beta in [0.05,0.95] (n steps) and boundary chains with alpha or beta in {0,1} (n/5 steps: absorbing, never disrupted, one-period disruptions, alternating). '
         'non-trivial = >=2 distinct sample values (random types), list longer than 1 replayed past its end (lists), both states '
         'visited (Markov), L>=2 (lead time), float sum != 1.0 exactly or non-dyadic entries (probability vectors); '
         'distinct = distinct (kind, parameters, seed).')
@@ -390,12 +390,44 @@ def corr_random(chk, ncase, ndraw, do_model=True):
         chk.case(c, len(set(map(float, r))) >= 2, key='corr|%s|%s|%s|%d' % (c['type'], json.dumps(jsonable(c['params']), sort_keys=True), c['round'], c['seed']))
 
 
+def gen_markov_boundary(rng):
+    """(alpha, beta) on the boundary of [0,1]^2 (validate_parameters allows the closed interval): at least one of them is 0 or 1,
+    written as an int or as a float; never both 0 (no steady state)"""
+    def edge(): return rng.choice([0, 1, 0.0, 1.0])
+    def inner(): return rng.choice([rng.randint(1, 15) / 16, round(rng.uniform(0.02, 0.98), rng.choice([1, 2, 3]))])
+    while True:
+        r = rng.random()
+        a, b = (inner(), edge()) if r < 0.4 else (edge(), inner()) if r < 0.7 else (edge(), edge())
+        if a + b > 0: return a, b
+
+
+def impossible_transitions(c, st):
+    """steps of the state sequence st that have probability 0 under the declared chain (possible only when alpha or beta is 0 or 1)"""
+    a, b = c['alpha'], c['beta']; prev = bool(c.get('d0', False)); out = []
+    for j, s in enumerate(st):
+        p = (1 - b) if prev else a                     # declared P(next state is down | current state); exact for 0 and 1
+        if (p == 0 and s) or (p == 1 and not s): out.append((j, prev, bool(s), p))
+        prev = bool(s)
+    return out
+
+
+def fail_impossible(chk, c, st):
+    bad = impossible_transitions(c, st)
+    if bad:
+        j, fr, to, p = bad[0]; nm = {False: 'up', True: 'down'}
+        chk.fail('update_disruption_state|M|probability-%d-transition-violated' % int(p),
+                 'step %d goes %s -> %s although the declared probability of %s -> down is %r (disruption_probability=%r, recovery_probability=%r, '
+                 'start state %s); %d such steps in %d' % (j, nm[fr], nm[to], nm[fr], p, c['alpha'], c['beta'], nm[bool(c.get('d0', False))], len(bad), len(st)), c)
+    return bool(bad)
+
+
 def corr_markov(chk, ncase, nstep, do_model=True):
     rng = chk.rng; cases = []
     for i in range(ncase):
         exact = rng.random() < 0.6
         a = _dy(rng, 0, 1, 16) if exact else round(rng.random(), rng.choice([1, 2, 5]))
         b = _dy(rng, 0, 1, 16) if exact else round(rng.random(), rng.choice([1, 2, 5]))
+        if i % 3 == 0: a, b = gen_markov_boundary(rng)          # a third of the chains have a 0 or 1 transition probability
         cases.append(dict(kind='markov', ptype='M', alpha=a, beta=b, d0=rng.random() < 0.5, seed=seed_of(rng), n=nstep))
     runs = []
     for c in cases:
@@ -408,6 +440,8 @@ def corr_markov(chk, ncase, nstep, do_model=True):
     model = coq_eval_sharded('c16m', 'Alg.Gen', '', exprs, shard=60) if do_model else [None] * len(cases)
     for c, (st, us), m in zip(cases, runs, model):
         chk.count('markov cases'); chk.traces += 1
+        chk.count('markov boundary=%s' % (c['alpha'] in (0, 1) or c['beta'] in (0, 1)))
+        fail_impossible(chk, c, st)
         # float transcription: down stays down iff u <= 1 - beta ; up goes down iff u <= alpha
         d = c['d0']; fm = []
         for u in us:
@@ -850,6 +884,12 @@ def oracle_validate(chk, n):
 
 def check_steady(chk, c):
     dp = mk_dp(c)
+    if c['ptype'] == 'M' and 0 <= c['alpha'] <= 1 and 0 <= c['beta'] <= 1:
+        try:
+            dp.validate_parameters()
+        except Exception as e:
+            chk.fail('validate_parameters|M|probabilities-in-[0,1]-rejected', 'disruption_probability=%r, recovery_probability=%r raise %s: %s'
+                     % (c['alpha'], c['beta'], exc_kind(e), str(e)[:200]), c)
     try:
         pu, pd = dp.steady_state_probabilities()
     except Exception as e:
@@ -874,6 +914,7 @@ def oracle_steady(chk, n, do_model=True):
         if i % 2 == 0:
             c = dict(kind='steady', ptype='M', alpha=_dy(rng, 0, 1, 16) if rng.random() < .5 else round(rng.random(), 3), beta=_dy(rng, 0, 1, 16) if rng.random() < .5 else round(rng.random(), 3))
             if c['alpha'] + c['beta'] == 0: c['beta'] = 0.5
+            if i % 6 == 4: c['alpha'], c['beta'] = gen_markov_boundary(rng)          # a probability equal to 0 or 1 (int or float)
         else:
             c = dict(kind='steady', ptype='E', states=[rng.random() < rng.choice([0.1, 0.5, 0.9]) for _ in range(rng.randint(1, 12))])
         cases.append(c); chk.count('steady %s' % c['ptype'])
@@ -964,6 +1005,9 @@ def check_stat_markov(chk, c, tests):
     dp = mk_dp(c); np.random.seed(c['seed']); st = []
     for _ in range(n):
         dp.update_disruption_state(); st.append(bool(dp.disrupted))
+    # transitions of declared probability 0 / 1 (alpha or beta on the boundary of [0,1]) are checked one by one, not statistically
+    fail_impossible(chk, c, st)
+    if a + b == 0: return                      # both states absorbing: no steady state is reported (see assume); nothing statistical to test
     prev = [bool(c.get('d0', False))] + st[:-1]
     from_up = [s for p, s in zip(prev, st) if not p]; from_dn = [s for p, s in zip(prev, st) if p]
     piu, pid = b / (a + b), a / (a + b)
@@ -981,7 +1025,16 @@ def check_stat_markov(chk, c, tests):
         rep = mk_dp(c).steady_state_probabilities()[1]
     except Exception:
         rep = None
-    if rep is not None and abs(freq - rep) > z * 1.2 * se + 4 / (n * (1 - abs(lam))):
+    if piu * pid == 0:
+        # one state is transient (alpha = 0 or beta = 0): the time spent there before absorption is geometric with the rate of leaving
+        # it, so it is <= ln(delta)/ln(1 - rate) periods except with probability delta (0 periods if the rate is 1)
+        rate = a if pid == 1 else b
+        allow = ((math.ceil(math.log(DELTA) / math.log1p(-rate)) if rate < 1 else 0) + 1) / n
+    elif abs(lam) == 1:
+        allow = 1 / n                          # alpha = beta = 1: the chain alternates deterministically
+    else:
+        allow = z * 1.2 * se + 4 / (n * (1 - abs(lam)))
+    if rep is not None and abs(freq - rep) > allow:
         chk.fail('update_disruption_state|M|steady-state-frequency', 'disrupted in %.5f of %d periods, steady_state_probabilities() reports pi_down = %.5f (|diff| > %.2f se) (alpha=%r, beta=%r)'
                  % (freq, n, rep, z, a, b), c)
     chk.extra['statistical']['markov_inconclusive_subtests'] = chk.extra['statistical'].get('markov_inconclusive_subtests', 0) + inconclusive
@@ -1003,6 +1056,15 @@ def stat_search(chk, nset, n, tests):
     for i in range(2 * nset):
         c = dict(kind='statmarkov', ptype='M', alpha=round(rng.uniform(0.05, 0.95), 2), beta=round(rng.uniform(0.05, 0.95), 2), d0=rng.random() < 0.5, seed=seed_of(rng), n=n)
         chk.count('stat markov')
+        check_stat_markov(chk, c, tests)
+        chk.case(c, True, key='statmarkov|%d' % c['seed'])
+    for i in range(2 * nset):
+        # boundary chains (a transition probability equal to 0 or 1): absorbing / never disrupted / strictly alternating
+        a, b = gen_markov_boundary(rng)
+        if i == 0: a, b = 0.5, 0                 # a disruption that never ends: pi_down = 1
+        if i == 1: a, b = 0.25, 1                # every disruption lasts exactly one period
+        c = dict(kind='statmarkov', ptype='M', alpha=a, beta=b, d0=rng.random() < 0.5, seed=seed_of(rng), n=max(n // 5, 2000))
+        chk.count('stat markov boundary')
         check_stat_markov(chk, c, tests)
         chk.case(c, True, key='statmarkov|%d' % c['seed'])
     chk.extra['statistical']['tests_run'] = tests.n
@@ -1040,6 +1102,7 @@ def run(chk):
         # directed search for a failing input of the property: oracle + statistics only, fresh seeds, larger samples
         oracle_reported_and_ltd(chk, 8 if quick else 30, 5, do_model=False)
         oracle_steady(chk, 60, do_model=False)
+        corr_markov(chk, 60, 200, do_model=False)
         oracle_sequences(chk, 80, 5)
         corr_lists(chk, 120, do_model=False)
         stat_search(chk, 4 if quick else 8, 60000 if quick else 300000, tests)
